@@ -59,6 +59,20 @@ def tables(dumps, values):
     return tb(pats, r["re"]), tb(nats, r["native"])
 
 
+def cjson_text_order(v):
+    """tocoq.cjson, but object members in the order of the dict (= the order of json.dumps(v), the
+    text the compiled code reads): since IR/Serde.v models several flattened members (de_flats: a
+    flattened subtype takes slots IN TEXT ORDER and stops at the first rejected value) the order is
+    part of the input."""
+    if isinstance(v, dict):
+        return "(JObj %s)" % tocoq.clist(list(v.items()),
+                                         lambda kv: "(%s, %s)" % (tocoq.ustr(kv[0]), cjson_text_order(kv[1])),
+                                         "(ustring * json)")
+    if isinstance(v, list):
+        return "(JArr %s)" % tocoq.clist(v, cjson_text_order, "json")
+    return tocoq.cjson(v)
+
+
 def eval_cases(tag, dumps, cases, fn="run_rt", shard=300, timeout=400):
     """dumps: {m: dump}; cases: list of (m, type_id, instance).  Returns list of
     strings (output of `fn`), in order."""
@@ -106,7 +120,7 @@ def eval_cases(tag, dumps, cases, fn="run_rt", shard=300, timeout=400):
                 if fn == "run_sup":
                     lines.append("  (run_sup sp_%d 14 %d%%N)" % (m, tid))
                 else:
-                    lines.append("  (%s re_t nat_t sp_%d %d %d%%N %s)" % (fn, m, FUEL, tid, tocoq.cjson(v)))
+                    lines.append("  (%s re_t nat_t sp_%d %d %d%%N %s)" % (fn, m, FUEL, tid, cjson_text_order(v)))
             f.write(";\n".join(lines))
             f.write("\n]%list.\nSet Printing Width 1000000.\nSet Printing Depth 1000000.\n")
             f.write("Eval vm_compute in (String.concat vnl vcases).\n")
